@@ -62,18 +62,37 @@ pub fn build_q(kind: Kind, n: usize, compressed: bool, opt: OptAt, fillers: [usi
             a.label(b"q").label(b"example").root().u16(1).u16(1);
         }
     }
+    // (compressed packets: besides pointers to the question, now and then a name is written out in full in the
+    // middle of the packet and later owners point to IT: a pointer target that moves when records before it go)
+    let mut written: Option<usize> = None;
     let mut owner = |a: &mut Asm, i: usize, rng: &mut Rng| {
         if compressed {
-            match rng.below(3) {
+            match rng.below(5) {
                 0 => {
                     a.ptr(12);
                 }
                 1 => {
                     a.label(format!("h{}", i).as_bytes()).ptr(12);
                 }
-                _ => {
+                2 => {
                     a.label(b"x").ptr(14);
                 }
+                3 => {
+                    written = Some(a.pos());
+                    a.label(format!("n{}", i).as_bytes()).label(b"other").label(b"net").root();
+                }
+                _ => match written {
+                    Some(w) => {
+                        if rng.chance(1, 2) {
+                            a.ptr(w);
+                        } else {
+                            a.label(b"ns").ptr(w);
+                        }
+                    }
+                    None => {
+                        a.ptr(12);
+                    }
+                },
             }
         } else {
             a.label(format!("h{}", i).as_bytes()).label(b"example").root();
